@@ -7,6 +7,10 @@
 (* against every third polynomial, equality only for identical             *)
 (* polynomials, constants ordered as numbers); the enumerated pairs are    *)
 (* replayed on the six operators, maximum / minimum and the lead queries.  *)
+(* Pairs of monomials in three indeterminates cover the order among        *)
+(* same-degree monomials in more than two names, and the examples of the   *)
+(* user guide are assumptions TLC evaluates: the specification's order is  *)
+(* the documented one.                                                     *)
 (***************************************************************************)
 EXTENDS Poly, TLC
 
@@ -22,11 +26,19 @@ RowMonoD(r) == MNorm([n \in {0, 1} |-> r[n + 1]])
 RepPoly(f) == [m \in {RowMonoD(r) : r \in DOMAIN f} |-> NInt(f[CHOOSE r \in DOMAIN f : RowMonoD(r) = m])]
 Flags == BOOLEAN \X BOOLEAN
 
+\* monomials in three indeterminates (the order among same-degree monomials in more than two names)
+Rows3 == {r \in [1..3 -> 0..(IF Tier = "quick" THEN 2 ELSE 3)] : r[1] + r[2] + r[3] <= (IF Tier = "quick" THEN 2 ELSE 3)}
+Mono3(r) == MNorm([n \in {0, 1, 2} |-> r[n + 1]])
+Dims3 == <<0, 1, 2>>
+
 Init == vec = [kind |-> "none"]
 \* two steps, so that the successors are computed by all workers and not by the one that owns the initial state
 Next == \/ vec.kind = "none" /\ \E a \in Reps : vec' = [kind |-> "half", a |-> a]
         \/ vec.kind = "half" /\ \E b \in Reps, f \in Flags :
               vec' = [kind |-> "order", a |-> vec.a, b |-> b, graded |-> f[1], reverse |-> f[2]]
+        \/ vec.kind = "none" /\ \E a \in Rows3 : vec' = [kind |-> "half3", a |-> a]
+        \/ vec.kind = "half3" /\ \E b \in Rows3, f \in Flags :
+              vec' = [kind |-> "mono3", a |-> vec.a, b |-> b, graded |-> f[1], reverse |-> f[2]]
 Spec == Init /\ [][Next]_vec
 
 Cmp(x, y) == ECmp(RepPoly(x), RepPoly(y), Dims, vec.graded, vec.reverse)
@@ -45,4 +57,24 @@ LeadIsMax == vec.kind = "order" =>
    LET p == RepPoly(vec.a)
        lm == ELeadMono(p, Dims, vec.graded, vec.reverse)
    IN p = EZero \/ (lm \in DOMAIN p /\ \A m \in DOMAIN p : m = lm \/ MLess(m, lm, Dims, vec.graded, vec.reverse))
+\* the monomial order in three indeterminates is total, and graded orders compare total degrees first
+Mono3Total == vec.kind = "mono3" =>
+   LET a == Mono3(vec.a)  b == Mono3(vec.b)
+       lt == MLess(a, b, Dims3, vec.graded, vec.reverse)  gt == MLess(b, a, Dims3, vec.graded, vec.reverse)
+   IN /\ (a = b) => (~lt /\ ~gt)
+      /\ (a # b) => (lt # gt)
+      /\ (vec.graded /\ MDeg(a) < MDeg(b)) => lt
+      /\ \A c \in Rows3 : (lt /\ MLess(b, Mono3(c), Dims3, vec.graded, vec.reverse)) => MLess(a, Mono3(c), Dims3, vec.graded, vec.reverse)
+
+\* The examples of docs/user_guide/comparison_operators.rst, under the default options:
+\* the specification's order is the documented one.
+Mo(r) == Mono3(r)
+DocLess(x, y) == MLess(Mo(x), Mo(y), Dims3, TRUE, FALSE)       \* the shipped defaults: sort_graded = True, sort_reverse = False
+ASSUME DocumentedOrder ==
+  /\ DocLess(<<1, 0, 0>>, <<2, 0, 0>>) /\ DocLess(<<2, 0, 0>>, <<3, 0, 0>>)                  \* q0 < q0**2 < q0**3
+  /\ DocLess(<<2, 2, 0>>, <<1, 5, 0>>) /\ DocLess(<<1, 5, 0>>, <<6, 1, 0>>)                  \* q0**2*q1**2 < q0*q1**5 < q0**6*q1
+  /\ DocLess(<<1, 0, 0>>, <<0, 0, 2>>) /\ DocLess(<<0, 0, 2>>, <<0, 3, 0>>)                  \* q0 < q2**2 < q1**3
+  /\ DocLess(<<1, 0, 0>>, <<0, 1, 0>>) /\ DocLess(<<0, 1, 0>>, <<0, 0, 1>>)                  \* q0 < q1 < q2
+  /\ DocLess(<<3, 1, 0>>, <<2, 2, 0>>) /\ DocLess(<<2, 2, 0>>, <<1, 3, 0>>)                  \* q0**3*q1 < q0**2*q1**2 < q0*q1**3
+  /\ DocLess(<<2, 2, 1>>, <<2, 1, 2>>) /\ DocLess(<<2, 1, 2>>, <<1, 2, 2>>)                  \* q0**2*q1**2*q2 < q0**2*q1*q2**2 < q0*q1**2*q2**2
 =============================================================================
